@@ -309,13 +309,27 @@ func runTcpScenario(sc *stScenario, seed int64) (evs []M, err error) {
 		return worst
 	})
 	tick := uint32(0)
+	// before a sweep every stalled RTSP consumer sends an RTCP receiver report (it does not read, but its RTCP timer
+	// runs): a consumer that takes nothing is disconnected whatever it sends
 	sweep := func() { tick++; g.Tick(tick) }
+	report := func() {
+		if proto != "rtsp" {
+			return
+		}
+		for _, c := range clients[1:] {
+			c.conn.SetWriteDeadline(time.Now().Add(time.Second))
+			c.conn.Write([]byte{'$', 1, 0, 8, 0x80, 201, 0, 1, 1, 2, 3, 4})
+		}
+		time.Sleep(30 * time.Millisecond) // the command loops take them
+	}
+	report()
 	step("sweep1", false, timed(sweep))
 	w0 := wrote()
 	step("publish1", true, func() int64 { return publish("key", 40000) })
 	// saturated: nothing more was taken for the stalled consumers (kernel buffers and queues are full), so the
 	// second sweep has to find them dead
 	saturated = wrote() == w0
+	report()
 	// the stalled consumers have not taken a byte since the first sweep: this one closes their connections, under Group.mutex
 	step("sweep2", false, timed(sweep))
 	// their per-connection routines report the departures
